@@ -24,6 +24,10 @@ func checkC09(p *Prog, r *Report) {
 	c09AnnualStart(p, r)
 	// "finite": the partial operations of the crop routines stay inside their domains (shared machinery with C06.R6)
 	domainRule(p, r, "C09.R7", "the crop development, root and vernalisation routines", []string{"hermes.PhytoOut", "hermes.root", "hermes.vern", "hermes.radia"}, 50)
+	// the assimilation routine turns sunshine hours into radiation when the file has no radiation column: a
+	// missing-value sentinel left in that series gives negative gross photosynthesis and a negative assimilate pool
+	// (shared with C04.R8 / C08.R8)
+	sentinelFallback(p, r, "C09.R8")
 	r.Note("not decided: finiteness and non-negativity of masses over whole growing seasons (multi-day state), phenology in calendar terms, anything about shipped parameter values")
 }
 
